@@ -1239,6 +1239,10 @@ impl World {
                         3 => rf.mime_type = if rf.mime_type == "text/plain" { "application/pdf".into() } else { "text/plain".into() },
                         4 => rf.original_hash[(r.below(32)) as usize] ^= 1 << r.below(8),
                         5 => rf.scheme_version = format!("{}x", rf.scheme_version),
+                        8 => {
+                            rf.filename = rf.filename.chars().map(|c| if c.is_ascii_lowercase() { c.to_ascii_uppercase() } else { c.to_ascii_lowercase() }).collect();
+                        }
+                        9 => rf.filename.push(' '),
                         _ => {}
                     }
                     mm.decrypt_from_download(&enc, &rf).map_err(|e| format!("{e}"))
